@@ -331,6 +331,8 @@ fn lens(g: &Geo, rng: &mut Rng, n: usize) -> Vec<usize> {
             2 => PAGE - 60 + rng.below(20),
             3 => PAGE + rng.below(PAGE),
             4 => max - 60 - rng.below(8),
+            // big blocks: values between the decoders' buffer sizes and the maximum
+            5 if max > 40 * PAGE && rng.chance(2, 3) => 33 * PAGE + rng.below(max - 34 * PAGE),
             5 => max + rng.below(PAGE),
             _ => rng.below(max.min(3 * PAGE)),
         });
